@@ -319,7 +319,7 @@ pub fn nt_c07(cx: &Ctx) -> bool {
     }
     match t {
         Topo::Take(n, _) => count_param(*n) <= vals.len(),
-        Topo::Skip(n, _) => (count_param(*n) < vals.len() && *n > 0) || *n == 255,
+        Topo::Skip(n, _) => (count_param(*n) < vals.len() && *n > 0) || *n >= 254,
         Topo::Filter(p, _) => vals.iter().any(|v| pred_fn(*p, *v)) && vals.iter().any(|v| !pred_fn(*p, *v)),
         _ => true,
     }
